@@ -257,7 +257,7 @@ func (r *Run) Violation(dedupKey string, replay any) string {
 		b = []byte(fmt.Sprintf("{\"property\":%q,\"what\":%q}", r.ID, dedupKey))
 	}
 	h := sha256.Sum256(b)
-	dir := filepath.Join(Root(), "replays")
+	dir := envOr("VERIF_REPLAY_DIR", filepath.Join(Root(), "replays"))
 	os.MkdirAll(dir, 0o755)
 	path := filepath.Join(dir, fmt.Sprintf("%s-%s.json", r.ID, hex.EncodeToString(h[:6])))
 	if r.Replay != "" {
@@ -343,7 +343,7 @@ func (r *Run) writeEvidence() {
 		e["assumptions"] = []string{}
 	}
 	b, _ := json.MarshalIndent(e, "", " ")
-	dir := filepath.Join(Root(), "evidence")
+	dir := envOr("VERIF_EVIDENCE_DIR", filepath.Join(Root(), "evidence"))
 	os.MkdirAll(dir, 0o755)
 	if r.Replay != "" {
 		return // a replay is not a coverage run
@@ -384,6 +384,7 @@ func (r *Run) RequireClass(name string, min int64) {
 	if r.Replay != "" {
 		return
 	}
+	min = int64(float64(min) * *flagScale)
 	if r.ClassCount(name) < min {
 		r.HarnessError("vacuity guard: class %q has %d cases, need >= %d", name, r.ClassCount(name), min)
 	}
